@@ -171,6 +171,11 @@ def _chains():
         out.append(ops)
     # a container assertion whose inference overwrites a scalar field: the overwritten value dies at once
     out.extend(_sg.overwrite_families())
+    # items leaving a managed list field by plain (un-hooked) list operations, their death, address re-use, then inference
+    # into that list
+    out.extend(_sg.unlist_families())
+    # subclass instances (Mgr < Emp) whose relations are inferred through the subclass's view of the inherited field
+    out.extend(_sg.subclass_families())
     return out
 
 
@@ -185,24 +190,30 @@ def generate(rng, tier, n):
         if i % 3 != 2:
             # garbage prefix (everything created in it is dropped), then assertions on new instances
             gp = _sg.Gen(rng, classes=rng.choice([(1, 1, 2, 3), (1, 1, 2, 3), (1, 2, 9, 4)]))
+            gp.sub_targets = rng.random() < 0.5
             prefix = gp.history(rng.randint(3, 10), w_query=0, w_clear=0, w_sweep=0.5, w_churn=rng.choice([0.0, 0.5]),
                                 w_role=rng.choice([0.0, 1.5]), w_bag=rng.choice([0.0, 1.0]),
                                 w_adopt=rng.choice([0.0, 0.8]),
-                                w_relchurn=rng.choice([0.0, 0.6]))
+                                w_relchurn=rng.choice([0.0, 0.6]), w_unlist=rng.choice([0.0, 0.0, 1.0]))
             for o in list(gp.held):
                 prefix.append(["drop", o])
             if rng.random() < 0.6:
                 prefix.append(["sweep"])
             gs = _sg.Gen(rng, classes=rng.choice([(1, 1, 2, 3), (1, 1, 2, 3), (1, 2, 9, 4)]), first_label=100)
+            gs.sub_targets = rng.random() < 0.5
             suffix = gs.history(rng.randint(3, 10), w_query=0, w_clear=0, w_drop=0.5, w_sweep=0.3,
                                 w_role=rng.choice([0.0, 1.5]), w_bag=rng.choice([0.0, 1.0]),
                                 w_adopt=rng.choice([0.0, 0.8]),
-                                w_relchurn=rng.choice([0.0, 0.0, 0.8]))
+                                w_relchurn=rng.choice([0.0, 0.0, 0.8]), w_unlist=rng.choice([0.0, 0.0, 0.8]))
             cases.append(_case(prefix + suffix, ("random", "after-prefix"), "random"))
             cases.append(_case(suffix, ("random", "fresh"), "random"))
         else:
             g = _sg.Gen(rng, classes=rng.choice([(1, 1, 2, 3), (1, 1, 2, 3), (1, 2, 9, 4)]))
-            ops = g.history(rng.randint(4, 20), w_query=0, w_clear=0.2, w_role=rng.choice([0.0, 2.0]),
+            g.sub_targets = rng.random() < 0.5
+            unl = rng.choice([0.0, 0.0, 1.0])
+            # (plain removals are not generated together with clear(): the driver reads "put there by the user or by
+            # inference" off the relation's edge, which clear() discards)
+            ops = g.history(rng.randint(4, 20), w_query=0, w_clear=0.0 if unl else 0.2, w_unlist=unl, w_role=rng.choice([0.0, 2.0]),
                             w_bag=rng.choice([0.0, 1.0]), w_adopt=rng.choice([0.0, 1.0]))
             cases.append(_case(ops, ("random", "interleaved"), "random"))
     return cases
